@@ -361,6 +361,12 @@ def make_case(rng, kind, max_m=11):
             kw["positive"] = rng.random() < 0.6
         dm = M.in_domain_dm(rng, spec, **kw)
         steps = []
+        if dm["family"] == "dyadic" and rng.random() < 0.12:
+            # large common level, small spread (figures around 2^27 differing by units): exact in binary64 when differences are
+            # taken first; a kernel that expands squares or sums before subtracting depends on the listing order here
+            off = float(2 ** 27)
+            dm["matrix"] = [[x + off for x in row] for row in dm["matrix"]]
+            dm["int_matrix"] = False
     else:
         positive = name in ("WPM", "FMF", "MultiMOORA") or rng.random() < 0.8  # nothing in the step families makes data positive
         dm = G.dm_case(rng, positive=positive, max_m=max_m, max_n=6, min_m=2, min_n=2, ties=rng.choice([0.0, 0.2, 0.5]),
@@ -637,6 +643,11 @@ def _scales(case, p1):
             mn = float(np.min(tot))
             cond = (n * vmax / mn) if mn > 0 else math.inf
             cond = max(1.0, cond) ** (2 if metric == "sqeuclidean" else 1)
+            # the allowance above is for the rounding of the weighted values a*w, which the subtraction from the ideal then
+            # magnifies.  When every product a*w is exact in binary64 (dyadic data), the differences are exact too and nothing
+            # is magnified: a large common level with a small spread is then as well conditioned as any other problem
+            if mn > 0 and all(C.F(float(A[i, j])) * C.F(float(w[j])) == C.F(float(V[i, j])) for i in range(A.shape[0]) for j in range(n)):
+                cond = 1.0
             out["similarity"] = cond
         elif name == "ELECTRE2":
             out["score"] = 1.0
